@@ -205,4 +205,29 @@ MUTANTS = [
     ("C09", SC, "if not (0 <= reduced_shift < (1 << 6)):", "if not (0 <= shift < (1 << 6)):", 1),
     ("C09", SC, "reduced_multiplier = int((multiplier + (1 << 15)) >> 16) if multiplier < 32767 << 16 else 32767", "reduced_multiplier = min(32767, (multiplier + 32768) >> 16)", 0),
     ("C09", SC, "reduced_multiplier = int((multiplier + (1 << 15)) >> 16) if multiplier < 32767 << 16 else 32767", "reduced_multiplier = int(multiplier >> 16) if multiplier < 32767 << 16 else 32767", 1),
+    # ---- round-3 rules and lints
+    ("C06", G, "        if has_scalar:\n            quantized_scalar", "        if npu_op.ifm2_scalar is not None:\n            quantized_scalar", 0),
+    ("C11", TW, "if quant.min is not None:", "if quant.min:", 1),
+    ("C04", U, "        if range1 is None:\n            continue", "        if range1 is None:\n            return False", 1),
+    ("C09", GO, "rescale = ifm.quantization.scale_f32 / ofm.quantization.scale_f32", "rescale = float(ifm.quantization.scale_f32) / float(ofm.quantization.scale_f32)", 0),
+    ("C03", GO, 'fm_negative = ifm.clone(op.name + "_negative", set_unique=True)', 'fm_negative = ifm.clone(op.name + "_negative", True)', 0),
+    ("C12", TA, "            sg.memory_used[mem_area] += total_sz", "            sg.memory_used[mem_area] = sg.memory_used[mem_area] + total_sz", 0),
+    ("C10", CB, "            and not sched_op.parent_op.type == Op.Conv2DBackpropInputSwitchedBias\n", "            and not sched_op.parent_op.type == Op.Conv2DBackpropInputSwitchedBias\n            and sched_op.parent_op.type != Op.Transpose\n", 0),
+    ("C10", CB, "            and sched_op.parent_op.read_offsets[1] is None\n", "", 1),
+    ("C13", "ethosu/vela/npu_performance.py", "            if key in cost.npu_weights_tensor.encoded_ranges:\n                weight_range = cost.npu_weights_tensor.encoded_ranges[key]\n                sz += round_up(weight_range.total_bytes, 16)", "            weight_range = cost.npu_weights_tensor.encoded_ranges.get(key)\n            if weight_range is not None:\n                sz += round_up(weight_range.total_bytes, 16)", 0),
+    ("C14", WC, "        CompressedWeightCache.cache[wcc] = tens", "        CompressedWeightCache.cache.pop(wcc, None)\n        CompressedWeightCache.cache[wcc] = tens", 1),
+    ("C15", AA, "    if (ifm_bits == 16) and npu_op_type != NpuBlockType.Pooling and scaled:", "    if scaled and ifm_bits == 16 and not npu_op_type == NpuBlockType.Pooling:", 0),
+    ("C15", AA, "    if (ifm_bits == 16) and npu_op_type != NpuBlockType.Pooling and scaled:", "    if (ifm_bits >= 16) and npu_op_type != NpuBlockType.Pooling and scaled:", 1),
+    ("C16", SO, "                if batch_size != 1:\n                    valid = False", "                if batch_size != 1:\n                    valid = valid and False", 0),
+    ("C17", G, "            sz += len(cmd) * CommandStreamEmitter.WORD_SIZE", "            sz += CommandStreamEmitter.WORD_SIZE * len(cmd)", 0),
+    ("C17", G, "            sz += len(cmd) * CommandStreamEmitter.WORD_SIZE", "            sz += CommandStreamEmitter.WORD_SIZE", 1),
+    ("C19", GO, "                alpha_scalar * (x - zp_in), alpha_scale, alpha_shift", "                alpha_scalar * x - alpha_scalar * zp_in, alpha_scale, alpha_shift", 0),
+    ("C19", GO, "                alpha_scalar * (x - zp_in), alpha_scale, alpha_shift", "                alpha_scalar * (x + zp_in), alpha_scale, alpha_shift", 1),
+    ("C03", "ethosu/vela/extract_npu_subgraphs.py", "    if len(orig_tens.consumers()) > 1:\n        new_tens.ifm_write_protected = True", "    if orig_tens in cpu_subgraph.input_tensors and len(orig_tens.consumers()) > 1:\n        new_tens.ifm_write_protected = True", 1),
+    ("C03", AA, "kernel.area_height() + kernel.stride.y - 1, upscale, nearest)", "kernel.area_height(), upscale, nearest)", 1),
+    ("C03", AA, "kernel.area_height() + kernel.stride.y - 1, upscale, nearest)", "kernel.stride.y + kernel.area_height() - 1, upscale, nearest)", 0),
+    ("C03", AA, "kernel.area_height() + kernel.stride.y - 1, upscale, nearest)", "kernel.area_height() + kernel.stride.y, upscale, nearest)", 0),
+    ("C13", GO, "        num_elements_in_axis = int(h * w)", "        num_elements_in_axis = h * w", 1),
+    ("C07", ENC, "int bitbuf_size = inbuf_size*2+1024;", "int bitbuf_size = 2*inbuf_size+2048;", 0),
+    ("C06", U, "    return int(fm.quantization.zero_point if fm.quantization else 0)", "    return int(fm.quantization.zero_point) if fm.quantization is not None else 0", 0),
 ]
